@@ -4,4 +4,4 @@
 From Coq Require Import Extraction ExtrOcamlBasic ExtrOcamlZBigInt.
 Require Import V.base.Bytes V.model.Draws.
 Extraction Blacklist List String Nat.
-Extraction "model.ml" wide_len sample_scalar party_values first_msg draws draws_rows total_len joint_sum joint_prod zero_share sid_term retry_site.
+Extraction "model.ml" wide_len sample_scalar party_values first_msg draws draws_rows total_len joint_sum joint_prod zero_share sid_term retry_site discarded_site.
